@@ -87,7 +87,7 @@ func scenarios(tier string) []*mcrt.Scenario {
 						reportingReadErrors, reportingEventLogWriteErrors, reportingLogWriteErrors = true, true, true
 						eventLogger = nil
 						mcrt.NewDailySink = obs.sinks.New
-						mcrt.Stdin = &hsink.ChunkReader{Data: input, Sizes: sizes, Reset: true}
+						mcrt.Stdin = &hsink.ChunkReader{Data: input, Sizes: sizes, Reset: true} // no EOFWithData: os.Stdin is an *os.File, whose Read never returns data together with io.EOF
 						mcrt.Stdout = obs.out
 						cfg := &config.Config{MessageLogDirectory: "logs", LogEvents: le, EventLogDirectory: "events"}
 						start(cfg)
